@@ -4,7 +4,7 @@
 # env TIER=quick|thorough
 set -u
 V="$(cd "$(dirname "$0")/.." && pwd)"
-W=/tmp/vp-mut
+W="${W:-/tmp/vp-mut}"
 [ -d "$W" ] || git -C /repo worktree add --detach "$W" HEAD -q
 git -C "$W" checkout -q --detach "$(git -C /repo rev-parse HEAD)" 2>/dev/null
 git -C "$W" checkout -q -- . ; git -C "$W" clean -qfd -e .verif-target
